@@ -168,7 +168,58 @@ func Load(cfg Config) (*Prog, error) {
 	for _, sp := range prog.AllPackages() {
 		p.SSAPkgs[sp.Pkg.Path()] = sp
 	}
+	p.installStableFields()
 	return p, nil
+}
+
+// installStableFields computes the module's struct fields that are only ever written while their object is
+// being constructed (a store through a fresh local or composite literal), and tells the path-fact engine.
+func (p *Prog) installStableFields() {
+	unstable := map[*types.Var]bool{}
+	for fn := range ssautil.AllFunctions(p.SSA) {
+		if fn.Pkg == nil || !p.InModule(fn.Pkg.Pkg.Path()) {
+			if par := fn; par.Parent() == nil || par.Parent().Pkg == nil || !p.InModule(par.Parent().Pkg.Pkg.Path()) {
+				continue
+			}
+		}
+		for _, b := range fn.Blocks {
+			for _, in := range b.Instrs {
+				var addr ssa.Value
+				switch x := in.(type) {
+				case *ssa.Store:
+					addr = x.Addr
+				case ssa.CallInstruction:
+					// an address handed to a call (atomic store, method with pointer receiver) may be written there
+					for _, a := range x.Common().Args {
+						if _, isFA := a.(*ssa.FieldAddr); isFA {
+							if f := PathOf(a).Last(); f != nil {
+								unstable[f.Origin()] = true
+							}
+						}
+					}
+					continue
+				default:
+					continue
+				}
+				path := PathOf(addr)
+				if len(path.Fields) == 0 {
+					continue
+				}
+				if al, ok := path.Root.(*ssa.Alloc); ok && spilledParam(al) == nil {
+					continue // construction of a fresh object
+				}
+				for _, f := range path.Fields {
+					unstable[f.Origin()] = true
+				}
+			}
+		}
+	}
+	StableField = func(f *types.Var) bool {
+		if f == nil || f.Pkg() == nil || !p.InModule(f.Pkg().Path()) {
+			return false
+		}
+		return !unstable[f.Origin()]
+	}
 }
 
 // InModule reports whether the package path belongs to the analysed module.
